@@ -13,7 +13,7 @@ func baseProfile(name string) *Profile {
 		FeeW:    []int{3, 3, 2, 1, 1},
 		ScaleW:  []int{5, 2, 2, 1},
 		PassW:   []int{6, 2, 2, 1},
-		GasCutP: 0.06, BatchP: 0.15, DupP: 0.08, TimeoutP: 0.1, SingleTxP: 0.5,
+		GasCutP: 0.06, BatchP: 0.15, DupP: 0.08, TimeoutP: 0.1, SingleTxP: 0.5, EmptyFeeP: 0.04, InitLimitP: 0.35,
 		StoreDigests: true,
 		EvidenceRule: "each evaluation is one seeded simulated run: a generated schedule of 25-70 actor events (remote users, relayers, consensus, orbiter authority, downstream admins, dust depositor, byzantine chain, operator) executed against the real application, followed by a drain (faults healed, everything relayed, one probe per route). A run is non-trivial when at least one rule of this property was actually evaluated in it; distinct_nontrivial counts distinct abstract states at packet-delivery instants (paused-protocol set, paused-pair set, paused-action set, limit bucket, number of statistics keys, dust present, environment-health vector, route, receiver encoding).",
 	}
@@ -61,6 +61,7 @@ func profileFor(name string) *Profile {
 		p.W["checkpoint"], p.W["orbadmin"] = 3, 18
 		p.Shadows = []string{"actiondiff"}
 		p.FeeW = []int{3, 3, 2, 1, 1}
+		p.EmptyFeeP = 0.15
 	case "C10":
 		p.Checkpoint = []string{"impostor"}
 		p.W["checkpoint"], p.W["impostor"], p.W["orbadmin"] = 3, 8, 10
